@@ -17,6 +17,8 @@ pub enum Op {
     RowsMutWrite(u8),
     ColMutWrite(usize, u8),
     CellsMutWrite(u8),
+    /// writes through `(&mut receiver).into_iter()`
+    IntoIterMutWrite(u8),
     /// source slice length
     CopyFromSlice(usize),
     CloneFromSlice(usize),
@@ -142,15 +144,51 @@ impl SrcDyn for SrcWin {
 /// Destination-side dispatch for the copy_from_toodee family.
 pub trait Dest: TooDeeOpsMut<Kt> + CopyOps<Kt> {
     fn copy_from_src(&mut self, src: &dyn SrcDyn, clone: bool);
+    /// Writes through the `IntoIterator for &mut Self` form (third-party types have none: cells_mut()).
+    fn into_iter_mut_write(&mut self, mode: u8, n: &mut u16) {
+        paint_cells(self.cells_mut(), mode, n)
+    }
+}
+fn paint_cells<'a, I: DoubleEndedIterator<Item = &'a mut Kt>>(mut it: I, mode: u8, n: &mut u16) {
+    match mode {
+        0 => {
+            for e in it {
+                *e = wval(n);
+            }
+        }
+        1 => {
+            for e in it.rev() {
+                *e = wval(n);
+            }
+        }
+        _ => {
+            if let Some(e) = it.nth(1) {
+                *e = wval(n);
+            }
+            for e in it {
+                *e = wval(n);
+            }
+        }
+    }
 }
 impl Dest for TooDee<Kt> {
     fn copy_from_src(&mut self, src: &dyn SrcDyn, clone: bool) {
         src.copy_into_owned(self, clone)
     }
+    fn into_iter_mut_write(&mut self, mode: u8, n: &mut u16) {
+        paint_cells((&mut *self).into_iter(), mode, n)
+    }
 }
 impl Dest for toodee::TooDeeViewMut<'_, Kt> {
     fn copy_from_src(&mut self, src: &dyn SrcDyn, clone: bool) {
         src.copy_into_view(self, clone)
+    }
+    fn into_iter_mut_write(&mut self, mode: u8, n: &mut u16) {
+        // `IntoIterator for &'a mut TooDeeViewMut<'a, T>` borrows the view for its whole lifetime: use a
+        // full-size view of this view, which lives (and is borrowed) until the end of this call
+        let size = self.size();
+        let mut whole = self.view_mut((0, 0), size);
+        paint_cells((&mut whole).into_iter(), mode, n)
     }
 }
 impl Dest for super::recv::ForeignOwned<Kt> {
@@ -230,7 +268,14 @@ pub fn apply_op<R: Dest>(x: &mut R, op: &Op) {
                 }
                 // internal iteration (fold / rfold paths)
                 5 => it.for_each(|row| paint(row, &mut n)),
-                _ => it.rev().for_each(|row| paint(row, &mut n)),
+                6 => it.rev().for_each(|row| paint(row, &mut n)),
+                7 => {
+                    if let Some(row) = it.last() {
+                        paint(row, &mut n);
+                    }
+                }
+                8 => it.skip(1).step_by(2).for_each(|row| paint(row, &mut n)),
+                _ => it.rev().skip(1).for_each(|row| paint(row, &mut n)),
             }
         }
         Op::ColMutWrite(c, mode) => {
@@ -270,9 +315,17 @@ pub fn apply_op<R: Dest>(x: &mut R, op: &Op) {
                     }
                 }
                 5 => it.for_each(|e| *e = wval(&mut n)),
-                _ => it.rev().for_each(|e| *e = wval(&mut n)),
+                6 => it.rev().for_each(|e| *e = wval(&mut n)),
+                7 => {
+                    if let Some(e) = it.last() {
+                        *e = wval(&mut n);
+                    }
+                }
+                8 => it.skip(1).step_by(2).for_each(|e| *e = wval(&mut n)),
+                _ => it.rev().skip(1).for_each(|e| *e = wval(&mut n)),
             }
         }
+        Op::IntoIterMutWrite(mode) => x.into_iter_mut_write(*mode, &mut n),
         Op::CellsMutWrite(mode) => {
             let mut it = x.cells_mut();
             match mode {
@@ -307,13 +360,20 @@ pub fn apply_op<R: Dest>(x: &mut R, op: &Op) {
                     }
                 },
                 5 => it.for_each(|e| *e = wval(&mut n)),
-                _ => {
+                6 => {
                     // one step from the front, then internal iteration from the back
                     if let Some(e) = it.next() {
                         *e = wval(&mut n);
                     }
                     it.rev().for_each(|e| *e = wval(&mut n))
                 }
+                7 => {
+                    if let Some(e) = it.last() {
+                        *e = wval(&mut n);
+                    }
+                }
+                8 => it.skip(1).step_by(2).for_each(|e| *e = wval(&mut n)),
+                _ => it.rev().skip(1).for_each(|e| *e = wval(&mut n)),
             }
         }
         Op::CopyFromSlice(len) => x.copy_from_slice(&src_slice(*len)),
@@ -380,7 +440,10 @@ pub fn ops_for(c: usize, r: usize, cw_max: usize) -> Vec<Op> {
             v.push(Op::SwapCols(a, b));
         }
     }
-    for m in 0..7 {
+    for m in 0..3 {
+        v.push(Op::IntoIterMutWrite(m));
+    }
+    for m in 0..10 {
         v.push(Op::RowsMutWrite(m));
         v.push(Op::CellsMutWrite(m));
         for x in 0..=c {
@@ -489,7 +552,7 @@ pub fn apply_op_unit<R: TooDeeOpsMut<()> + CopyOps<()>>(x: &mut R, op: &Op) {
         Op::Translate(mc, mr) => x.translate_with_wrap((*mc, *mr)),
         Op::FlipRows => x.flip_rows(),
         Op::FlipCols => x.flip_cols(),
-        Op::RowsMutWrite(_) | Op::ColMutWrite(..) | Op::CellsMutWrite(_) => {}
+        Op::RowsMutWrite(_) | Op::ColMutWrite(..) | Op::CellsMutWrite(_) | Op::IntoIterMutWrite(_) => {}
     }
 }
 
@@ -500,7 +563,7 @@ pub fn apply_op_unit<R: TooDeeOpsMut<()> + CopyOps<()>>(x: &mut R, op: &Op) {
 pub fn zst_panic_differential(c: usize, r: usize, ops: &[Op], ctx: &mut crate::engine::Ctx) {
     use crate::engine::guarded;
     for op in ops {
-        if matches!(op, Op::RowsMutWrite(_) | Op::ColMutWrite(..) | Op::CellsMutWrite(_)) {
+        if matches!(op, Op::RowsMutWrite(_) | Op::ColMutWrite(..) | Op::CellsMutWrite(_) | Op::IntoIterMutWrite(_)) {
             continue;
         }
         ctx.case(
